@@ -166,3 +166,20 @@ func VC_C16_len15_vc5_0() { vDiffVex(0xC5, 0x00, 0x3F, 15, 0) }
 func VC_C16_len15_vc5_1() { vDiffVex(0xC5, 0x40, 0x7F, 15, 0) }
 func VC_C16_len15_vc5_2() { vDiffVex(0xC5, 0x80, 0xBF, 15, 0) }
 func VC_C16_len15_vc5_3() { vDiffVex(0xC5, 0xC0, 0xFF, 15, 0) }
+
+// operand-size prefix 66 + one-byte opcodes (0F escape: VC_C16_mand_66)
+func VC_C16_o16_00() { vDiff66(0x00, 0x0F, 16) }
+func VC_C16_o16_10() { vDiff66(0x10, 0x1F, 16) }
+func VC_C16_o16_20() { vDiff66(0x20, 0x2F, 16) }
+func VC_C16_o16_30() { vDiff66(0x30, 0x3F, 16) }
+func VC_C16_o16_50() { vDiff66(0x50, 0x5F, 16) }
+func VC_C16_o16_60() { vDiff66(0x60, 0x6F, 16) }
+func VC_C16_o16_70() { vDiff66(0x70, 0x7F, 16) }
+func VC_C16_o16_80() { vDiff66(0x80, 0x8F, 16) }
+func VC_C16_o16_90() { vDiff66(0x90, 0x9F, 16) }
+func VC_C16_o16_a0() { vDiff66(0xA0, 0xAF, 16) }
+func VC_C16_o16_b0() { vDiff66(0xB0, 0xBF, 16) }
+func VC_C16_o16_c0() { vDiff66(0xC0, 0xCF, 16) }
+func VC_C16_o16_d0() { vDiff66(0xD0, 0xDF, 16) }
+func VC_C16_o16_e0() { vDiff66(0xE0, 0xEF, 16) }
+func VC_C16_o16_f0() { vDiff66(0xF0, 0xFF, 16) }
